@@ -107,7 +107,11 @@ def apply_fault(b, fault, rnd):
         return pkts, keylog, "random secrets"
     if kind == "foreign":
         # extra flows: plain HTTP towards a watched port / arbitrary UDP payloads, interleaved at free timestamps
-        extra = scenario.noise_packets(99, fault["noise"])
+        nspec = fault["noise"]
+        if any(sh in ("short_cid", "long_cid") for sh in nspec.get("shapes", ())):
+            cids = [c_.hex() for cn, cs in zip(b.conns, b.spec["conns"]) if cs["kind"] == "quic" for c_ in (cn.s_scid, cn.c_scid) if c_]
+            nspec = dict(nspec, cids=cids)
+        extra = scenario.noise_packets(99, nspec)
         used = {p.ts for p in pkts}
         for e in extra:
             j = 0 if fault.get("at") == "front" else rnd.randrange(len(pkts) + 1)
@@ -428,6 +432,27 @@ def foreign_on_ports_specs():
     return out
 
 
+def foreign_with_cid_specs():
+    """foreign datagrams (other hosts, other ports) that carry a connection ID of a QUIC connection of the capture - the client's or the
+    server's, connection IDs of 1..8 bytes, one side possibly with a zero-length ID - in short- and long-header shape, between that
+    connection's packets"""
+    data = lambda d, n: {"op": "data", "d": d, "pk": [{"fr": [["stream", 0, n, None, False, True, None]], "gap": 0, "pnl": 0}]}
+    out = []
+    i = 0
+    for cl, sl in ((0, 8), (0, 1), (8, 0), (4, 4), (1, 1)):
+        for shapes in (["short_cid"], ["long_cid"], ["short_cid", "long_cid", "short_cid"]):
+            for fseed in (1, 2, 3):
+                victim = {"kind": "tls", "seed": 9900 + i, "version": tlsref.TLS12, "suite": 0xC02F, "history": [[0, 15, 0], [1, 32, 0]], "cert_len": 40,
+                          "ep": scenario.default_ep(0), "tcp": {"mode": "rec", "syn": False}}
+                by_q = {"kind": "quic", "seed": 9920 + i, "suite": [0x1301, 0x1303][i % 2], "c_scid_len": cl, "s_scid_len": sl,
+                        "steps": [data(0, 11), data(1, 21), data(1, 22), data(0, 12), data(1, 23), data(1, 24), data(0, 13), data(1, 25)], "ep": scenario.default_ep(2)}
+                out.append({"conns": [victim, by_q], "order": [0, 1, 1, 1], "tseed": 2 + i, "fseed": fseed,
+                            "fault": {"kind": "foreign", "noise": {"kind": "noise", "what": "udp_struct", "seed": 60 + i, "n": 4,
+                                                                    "ep": scenario.default_ep(9), "shapes": shapes}}})
+                i += 1
+    return out
+
+
 def hello_specs(tier):
     out = []
     combos = [(0x002F, tlsref.TLS10), (0x009C, tlsref.TLS12), (0x1301, tlsref.TLS13), (0x000A, tlsref.SSL30)]
@@ -654,6 +679,7 @@ def stages(tier):
         Stage("all-positions", evaluate_positions, strategy=lambda t: base_scenario(small=True), examples=32 if quick else 600, shrink=False),
         Stage("key-update-victims-all-positions", evaluate_positions, specs=key_update_victim_specs(), chunksize=1),
         Stage("foreign-datagrams-on-the-connections-port-numbers", evaluate_single, specs=foreign_on_ports_specs()),
+        Stage("foreign-datagrams-carrying-a-connection-id", evaluate_single, specs=foreign_with_cid_specs()),
         Stage("hello-bitflips", evaluate_hello_bits, specs=hello_specs(tier), chunksize=1),
         Stage("aborted-handshakes", evaluate_single, specs=aborted_handshake_specs()),
         Stage("loss-early-in-a-long-flow", evaluate_single, specs=long_victim_specs()),
